@@ -46,3 +46,6 @@ Qed.
 Print Assumptions C13_parents.
 Print Assumptions C13_children.
 Print Assumptions C13_nonvacuous.
+
+(* accessor/constant table regenerated from the source: re-checked with this property *)
+From Traph Require AccessorFacts.
